@@ -62,10 +62,44 @@ def cases(draw):
     return {"frames": specs, "driver": driver, "cf": cf, "fire": fire, "skip": draw(st.booleans()), "cuts": cuts}
 
 
+def long_cases(shard, of):
+    """Messages of many fragments (up to 300) and fragments of structured sizes, in both delivery modes."""
+    from ..sizes import structured
+
+    i = 0
+    for nfrag in (9, 16, 17, 18, 31, 32, 33, 34, 63, 64, 65, 66, 100, 128, 129, 257, 300):
+        for fire in (False, True):
+            for op, mk in ((rm.TEXT, lambda j: ("f%d," % j).encode()), (rm.BINARY, lambda j: bytes([j & 0xFF, (j >> 8) & 0xFF]))):
+                i += 1
+                if i % of != shard:
+                    continue
+                specs = [{"fin": int(j == nfrag - 1), "op": op if j == 0 else rm.CONT, "p": mk(j), "key": None} for j in range(nfrag)]
+                specs.insert(nfrag // 2, {"fin": 1, "op": rm.PING, "p": b"mid", "key": None})
+                yield {"frames": specs + [{"fin": 1, "op": rm.TEXT, "p": b"after", "key": None}], "driver": ("data", "data_frame", "recv")[i % 3] if not fire else ("data", "data_frame")[i % 2],
+                       "cf": False, "fire": fire, "skip": False, "cuts": []}
+    for n in structured(70000):
+        if n < 126:
+            continue
+        i += 1
+        if i % of != shard:
+            continue
+        fire = bool(i & 1)
+        for order in ((7, n), (n, 7), (n, n)):
+            specs = [{"fin": 0, "op": rm.BINARY, "p": {"rep": b"\x01\x02\x03", "n": order[0]}, "key": None}, {"fin": 1, "op": rm.CONT, "p": {"rep": b"\x0a\x0b", "n": order[1]}, "key": None},
+                     {"fin": 1, "op": rm.TEXT, "p": b"after", "key": None}]
+            yield {"frames": specs, "driver": "data_frame" if fire else "data", "cf": False, "fire": fire, "skip": False, "cuts": []}
+
+
 def jobs(tier, seed):
     n, shards = (3200, 8) if tier == "quick" else (192000, 16)
-    return [{"name": f"hyp-{i}", "kind": "hyp", "seed": seed * 1000 + i, "n": n // shards} for i in range(shards)]
+    return [{"name": f"hyp-{i}", "kind": "hyp", "seed": seed * 1000 + i, "n": n // shards} for i in range(shards)] + [
+        {"name": f"long-{i}", "kind": "long", "shard": i, "of": 8} for i in range(8)]
 
 
 def run_job(job, coll):
+    if job["kind"] == "long":
+        for c in long_cases(job["shard"], job["of"]):
+            coll.check(c, run_case)
+        coll.exhaustive["messages of 9..300 fragments; fragment sizes over the structured lengths up to 70000"] = True
+        return
     hyp_run(coll, cases(), run_case, job["seed"], job["n"])
